@@ -467,68 +467,79 @@ Proof.
     constructor; [eapply Qeq_trans; [exact Hxy | exact Hyz] | exact (IH w Htw)].
 Qed.
 
-Definition EvU (u : list Q) (cl : list (list Q * option Q)) : Prop :=
-  exists u' y, In (u', Some y) cl /\ Forall2 Qeq u' u.
+(* [EvP c cl]: the pair (point, observed value) of [c] is a successful call of [cl], up to Qeq *)
+Definition EvP (c : inc) (cl : list (list Q * option Q)) : Prop :=
+  exists u' y', In (u', Some y') cl /\ Forall2 Qeq u' (i_u c) /\ (y' == i_y c)%Q.
 
-Lemma EvU_incl : forall u (l l' : list (list Q * option Q)),
-  (forall p, In p l -> In p l') -> EvU u l -> EvU u l'.
+Lemma EvP_incl : forall c (l l' : list (list Q * option Q)),
+  (forall p, In p l -> In p l') -> EvP c l -> EvP c l'.
 Proof.
-  intros u l l' Hincl (u' & y & Hin & Hq). exists u', y. split; [apply Hincl; exact Hin | exact Hq].
+  intros c l l' Hincl (u' & y & Hin & Hq & Hy). exists u', y.
+  split; [apply Hincl; exact Hin|]. split; [exact Hq | exact Hy].
 Qed.
 
-Lemma EvU_exact : forall u y (l : list (list Q * option Q)), In (u, Some y) l -> EvU u l.
-Proof. intros u y l Hin. exists u, y. split; [exact Hin | apply F2_refl]. Qed.
-
-Lemma EvU_eq : forall u u' l, Forall2 Qeq u' u -> EvU u l -> EvU u' l.
+Lemma EvP_exact : forall c (l : list (list Q * option Q)), In (i_u c, Some (i_y c)) l -> EvP c l.
 Proof.
-  intros u u' l Hq (u'' & y & Hin & Hq'). exists u'', y. split; [exact Hin|].
-  eapply F2_trans; [exact Hq' | apply F2_sym; exact Hq].
+  intros c l Hin. exists (i_u c), (i_y c). split; [exact Hin|]. split; [apply F2_refl | apply Qeq_refl].
 Qed.
 
-(* [stepU s s']: history untouched, calls only grow, and the incumbent is the old one or a point
-   evaluated meanwhile *)
+Lemma EvP_pair : forall c d l, pair_eqb c d = true -> EvP d l -> EvP c l.
+Proof.
+  intros c d l Hp (u' & y & Hin & Hq & Hy). unfold pair_eqb in Hp.
+  apply andb_true_iff in Hp. destruct Hp as [Hu Hv].
+  apply qlist_eqb_v_F2 in Hu. apply Qeq_bool_iff in Hv.
+  exists u', y. split; [exact Hin|].
+  split; [eapply F2_trans; [exact Hq | apply F2_sym; exact Hu]|].
+  eapply Qeq_trans; [exact Hy | apply Qeq_sym; exact Hv].
+Qed.
+
+(* [stepU s s']: history untouched, calls only grow, func_count does not decrease, and the incumbent
+   is the old one or a (point, value) evaluated meanwhile *)
 Definition stepU (s s' : st) : Prop :=
-  hist s' = hist s /\ (forall p, In p (calls s) -> In p (calls s')) /\
-  (cur s' = cur s \/ exists y, In (i_u (cur s'), Some y) (calls s')).
+  hist s' = hist s /\ (forall p, In p (calls s) -> In p (calls s')) /\ fc s <= fc s' /\
+  (cur s' = cur s \/ In (i_u (cur s'), Some (i_y (cur s'))) (calls s')).
 
 Lemma stepU_refl : forall s, stepU s s.
-Proof. intros s. split; [reflexivity|]. split; [intros p Hp; exact Hp | left; reflexivity]. Qed.
+Proof.
+  intros s. split; [reflexivity|]. split; [intros p Hp; exact Hp|]. split; [lia | left; reflexivity].
+Qed.
 
 Lemma stepU_trans : forall s s' s'', stepU s s' -> stepU s' s'' -> stepU s s''.
 Proof.
-  intros s s' s'' (H1 & H2 & H3) (G1 & G2 & G3).
-  split; [congruence|]. split; [intros p Hp; apply G2; apply H2; exact Hp|].
+  intros s s' s'' (H1 & H2 & Hf & H3) (G1 & G2 & Gf & G3).
+  split; [congruence|]. split; [intros p Hp; apply G2; apply H2; exact Hp|]. split; [lia|].
   destruct G3 as [E | G3]; [|right; exact G3].
-  rewrite E. destruct H3 as [E' | (y & Hin)]; [left; exact E'|].
-  right. exists y. apply G2. exact Hin.
+  rewrite E. destruct H3 as [E' | Hin]; [left; exact E'|].
+  right. apply G2. exact Hin.
 Qed.
 
 Lemma stepU_same : forall s s', same s s' -> stepU s s'.
 Proof.
-  intros s s' (Hc & _ & _ & Hcu & Hh).
-  split; [exact Hh|]. split; [rewrite Hc; intros p Hp; exact Hp | left; exact Hcu].
+  intros s s' (Hc & Hf & _ & Hcu & Hh).
+  split; [exact Hh|]. split; [rewrite Hc; intros p Hp; exact Hp|]. split; [lia | left; exact Hcu].
 Qed.
 
 Lemma do_eval_calls : forall s e,
   hist (do_eval s e) = hist s /\ cur (do_eval s e) = cur s /\
   (forall p, In p (calls s) -> In p (calls (do_eval s e))) /\
-  (exn (do_eval s e) = false -> In (e_u e, Some (e_y e)) (calls (do_eval s e))).
+  (exn (do_eval s e) = false -> In (e_u e, Some (e_y e)) (calls (do_eval s e))) /\
+  fc s <= fc (do_eval s e).
 Proof.
   intros s e. destruct (e_fault e) eqn:Ef.
-  - destruct (do_eval_fault s e Ef) as (E1 & E2 & _ & E4 & E5).
-    split; [exact E5|]. split; [exact E4|]. split.
+  - destruct (do_eval_fault s e Ef) as (E1 & E2 & E3 & E4 & E5).
+    split; [exact E5|]. split; [exact E4|]. split; [|split; [|lia]].
     + intros p Hp. rewrite E2. apply in_or_app. left. exact Hp.
     + intros C. congruence.
-  - destruct (do_eval_ok s e Ef) as (E1 & E2 & _ & E4 & E5).
-    split; [exact E5|]. split; [exact E4|]. split.
+  - destruct (do_eval_ok s e Ef) as (E1 & E2 & E3 & E4 & E5).
+    split; [exact E5|]. split; [exact E4|]. split; [|split; [|lia]].
     + intros p Hp. rewrite E2. apply in_or_app. left. exact Hp.
     + intros _. rewrite E2. apply in_or_app. right. left. reflexivity.
 Qed.
 
 Lemma stepU_do_eval : forall s e, stepU s (do_eval s e).
 Proof.
-  intros s e. destruct (do_eval_calls s e) as (H1 & H2 & H3 & _).
-  split; [exact H1|]. split; [exact H3 | left; exact H2].
+  intros s e. destruct (do_eval_calls s e) as (H1 & H2 & H3 & _ & H5).
+  split; [exact H1|]. split; [exact H3|]. split; [exact H5 | left; exact H2].
 Qed.
 
 Lemma stepU_search : forall o SI ev s, stepU s (search_phase o SI ev s).
@@ -538,38 +549,40 @@ Proof.
   set (s1 := set_ctrl s (k s) (ks s) (scount s + 1) (ssucc s) (spree s)) in *.
   destruct (se_eval ev) as [e|]; [|exact H1]. cbv zeta.
   pose proof (stepU_trans _ _ _ H1 (stepU_do_eval s1 e)) as H2.
-  destruct (do_eval_calls s1 e) as (_ & _ & _ & Hin).
+  destruct (do_eval_calls s1 e) as (_ & _ & _ & Hin & _).
   destruct (exn (do_eval s1 e)) eqn:Ex2; [exact H2|]. specialize (Hin eq_refl).
   destruct (qltb 0 (e_impr e) && o_sloppy o || qltb SI (e_impr e)); [|exact H2].
   assert (H3 : stepU s (set_cur (do_eval s1 e) (inc_of e))).
-  { destruct H2 as (G1 & G2 & _). split; [exact G1|]. split; [exact G2|].
-    right. exists (e_y e). cbn [set_cur cur calls inc_of i_u]. exact Hin. }
+  { destruct H2 as (G1 & G2 & Gf & _). split; [exact G1|]. split; [exact G2|]. split; [exact Gf|].
+    right. cbn [set_cur cur calls inc_of i_u i_y]. exact Hin. }
   destruct (qltb SI (e_impr e)); [|exact H3].
   eapply stepU_trans; [exact H3 | apply stepU_same; apply same_set_ctrl].
 Qed.
 
 Definition PU (s0 : st) (a : pacc) : Prop :=
   hist (p_s a) = hist s0 /\ (forall p, In p (calls s0) -> In p (calls (p_s a))) /\
-  cur (p_s a) = cur s0 /\
-  (p_inc a = cur s0 \/ exists y, In (i_u (p_inc a), Some y) (calls (p_s a))).
+  fc s0 <= fc (p_s a) /\ cur (p_s a) = cur s0 /\
+  (p_inc a = cur s0 \/ In (i_u (p_inc a), Some (i_y (p_inc a))) (calls (p_s a))).
 
 Lemma poll_loop_PU : forall o ncand s0 evs a, PU s0 a -> PU s0 (poll_loop o ncand evs a).
 Proof.
   intros o ncand s0 evs. induction evs as [|e r IH]; intros a HP; cbn [poll_loop]; [exact HP|].
   destruct (poll_guard o ncand a); [|exact HP].
-  destruct HP as (Hh & Hincl & Hcu & Hinc).
-  destruct (do_eval_calls (p_s a) e) as (D1 & D2 & D3 & D4).
-  assert (Hinc' : p_inc a = cur s0 \/ exists y, In (i_u (p_inc a), Some y) (calls (do_eval (p_s a) e))).
-  { destruct Hinc as [E | (y & Hin)]; [left; exact E | right; exists y; apply D3; exact Hin]. }
+  destruct HP as (Hh & Hincl & Hfc & Hcu & Hinc).
+  destruct (do_eval_calls (p_s a) e) as (D1 & D2 & D3 & D4 & D5).
+  assert (Hinc' : p_inc a = cur s0 \/ In (i_u (p_inc a), Some (i_y (p_inc a))) (calls (do_eval (p_s a) e))).
+  { destruct Hinc as [E | Hin]; [left; exact E | right; apply D3; exact Hin]. }
   assert (Hincl' : forall p, In p (calls s0) -> In p (calls (do_eval (p_s a) e))).
   { intros p Hp. apply D3. apply Hincl. exact Hp. }
+  assert (Hfc' : fc s0 <= fc (do_eval (p_s a) e)) by lia.
   destruct (exn (do_eval (p_s a) e)) eqn:Ex2.
-  - unfold PU. cbn [p_s p_inc]. split; [congruence|]. split; [exact Hincl'|]. split; [congruence | exact Hinc'].
+  - unfold PU. cbn [p_s p_inc]. split; [congruence|]. split; [exact Hincl'|]. split; [exact Hfc'|].
+    split; [congruence | exact Hinc'].
   - specialize (D4 eq_refl). apply IH.
     destruct (qltb (p_best a) (e_impr e)); unfold PU; cbn [p_s p_inc].
-    + split; [congruence|]. split; [exact Hincl'|]. split; [congruence|].
-      right. exists (e_y e). cbn [inc_of i_u]. exact D4.
-    + split; [congruence|]. split; [exact Hincl'|]. split; [congruence | exact Hinc'].
+    + split; [congruence|]. split; [exact Hincl'|]. split; [exact Hfc'|]. split; [congruence|].
+      right. cbn [inc_of i_u i_y]. exact D4.
+    + split; [congruence|]. split; [exact Hincl'|]. split; [exact Hfc'|]. split; [congruence | exact Hinc'].
 Qed.
 
 Lemma stepU_poll : forall o SI ev s, stepU s (poll_phase o SI ev s).
@@ -577,73 +590,119 @@ Proof.
   intros o SI ev s. unfold poll_phase.
   assert (HP0 : PU s (mkP s 0 (cur s) 0)).
   { unfold PU. cbn [p_s p_inc]. split; [reflexivity|]. split; [intros p Hp; exact Hp|].
-    split; [reflexivity | left; reflexivity]. }
+    split; [lia|]. split; [reflexivity | left; reflexivity]. }
   pose proof (poll_loop_PU o (pe_ncand ev) s (pe_evals ev) _ HP0) as HP.
   set (a := poll_loop o (pe_ncand ev) (pe_evals ev) (mkP s 0 (cur s) 0)) in *.
-  cbv zeta. destruct HP as (Hh & Hincl & Hcu & Hinc).
+  cbv zeta. destruct HP as (Hh & Hincl & Hfc & Hcu & Hinc).
   assert (Ha : stepU s (p_s a)).
-  { split; [exact Hh|]. split; [exact Hincl | left; exact Hcu]. }
+  { split; [exact Hh|]. split; [exact Hincl|]. split; [exact Hfc | left; exact Hcu]. }
   destruct (exn (p_s a)); [exact Ha|].
   set (s2 := if qltb 0 (p_best a) && o_sloppy o || qltb SI (p_best a) then set_cur (p_s a) (p_inc a) else p_s a).
   assert (H2 : stepU s s2).
   { unfold s2. destruct (qltb 0 (p_best a) && o_sloppy o || qltb SI (p_best a)); [|exact Ha].
-    split; [exact Hh|]. split; [exact Hincl|]. cbn [set_cur cur calls].
+    split; [exact Hh|]. split; [exact Hincl|]. split; [exact Hfc|]. cbn [set_cur cur calls].
     destruct Hinc as [E | Hin]; [left; exact E | right; exact Hin]. }
   destruct (qltb SI (p_best a)); (eapply stepU_trans; [exact H2 | apply stepU_same; apply same_set_ctrl]).
 Qed.
 
-(* invariant: in a state without a pending exception, the incumbent point and the point of every
-   history row were passed to the target (up to Qeq of the coordinates) and returned a value *)
-Definition InvU (s : st) : Prop :=
-  exn s = false ->
-  EvU (i_u (cur s)) (calls s) /\ forall h, In h (hist s) -> EvU (i_u (h_inc h)) (calls s).
+(* ---- one iteration, decomposed: the state s3 after search/poll, then the closing record ---- *)
+Definition close_iter (o : opts) (ev : iter_ev) (s3 : st) (dopoll f : bool) (m kk : Z) : st :=
+  mkSt (k s3) (ks s3) (scount s3) (ssucc s3) (spree s3)
+       (if negb f && dopoll then piter s3 + 1 else piter s3) (fc s3) (nrows s3)
+       (if negb (o_det o) && dopoll && (0 <? piter s3)
+        then match ie_noisy ev with Some c => c | None => cur s3 end else cur s3)
+       (calls s3)
+       (if dopoll || f then hist s3 ++ [mkH (cur s3) (fc s3) kk] else hist s3) f m false.
 
-Lemma InvU_stepU : forall s s', exn s = false -> stepU s s' -> InvU s ->
-  EvU (i_u (cur s')) (calls s') /\ forall h, In h (hist s') -> EvU (i_u (h_inc h)) (calls s').
+Lemma step_iter_decomp : forall o s ev, fin s = false -> exn s = false ->
+  exists s3 dopoll, stepU s s3 /\ sameH s s3 /\
+    ((exn s3 = true /\ step_iter o s ev = s3 /\ noisy_u_ok_iter o s ev = true) \/
+     (exn s3 = false /\ exists f m kk,
+        step_iter o s ev = close_iter o ev s3 dopoll f m kk /\
+        noisy_u_ok_iter o s ev =
+          if negb (o_det o) && dopoll && (0 <? piter s3)
+          then match ie_noisy ev with
+               | Some c => pair_eqb c (cur s3) || existsb (fun h => pair_eqb c (h_inc h)) (hist s3)
+               | None => true
+               end
+          else true)).
 Proof.
-  intros s s' Hx (Hh & Hincl & Hcu) HI. destruct (HI Hx) as [Hc Hr]. split.
-  - destruct Hcu as [E | (y & Hin)].
-    + rewrite E. exact (EvU_incl _ _ _ Hincl Hc).
-    + exact (EvU_exact _ _ _ Hin).
-  - intros h Hin. rewrite Hh in Hin. exact (EvU_incl _ _ _ Hincl (Hr h Hin)).
-Qed.
-
-Lemma InvU_step : forall o s ev, noisy_u_ok_iter o s ev = true -> InvU s -> InvU (step_iter o s ev).
-Proof.
-  intros o s ev Hok HI. unfold step_iter, noisy_u_ok_iter in *.
-  destruct (fin s || exn s) eqn:Efx; [exact HI|].
-  apply orb_false_iff in Efx. destruct Efx as [_ Hx].
+  intros o s ev Hfin Hx. unfold step_iter, noisy_u_ok_iter. rewrite Hfin, Hx. cbn [orb].
   pose proof (stepU_same _ _ (same_lock_ks o s)) as H0.
+  pose proof (sameH_lock_ks o s) as G0.
   set (s0 := lock_ks o s) in *.
   set (s1 := if want_search o s0 then search_phase o (ie_SI ev) (ie_search ev) s0 else s0) in *.
   assert (H1 : stepU s s1).
   { unfold s1. destruct (want_search o s0); [|exact H0].
     eapply stepU_trans; [exact H0 | apply stepU_search]. }
-  destruct (exn s1) eqn:Ex1; [intros C; congruence|].
+  assert (G1 : sameH s s1).
+  { unfold s1. destruct (want_search o s0); [|exact G0].
+    eapply sameH_trans; [exact G0 | apply sameH_search]. }
+  destruct (exn s1) eqn:Ex1.
+  { exists s1, false. split; [exact H1|]. split; [exact G1|]. left. repeat split; try reflexivity. exact Ex1. }
   pose proof (stepU_same _ _ (same_poll_decision o s1)) as H2.
-  destruct (poll_decision o s1) as [s2 dopoll]. cbn [fst] in H2.
+  pose proof (sameH_poll_decision o s1) as G2.
+  destruct (poll_decision o s1) as [s2 dopoll]. cbn [fst] in H2, G2.
   set (s3 := if dopoll then poll_phase o (ie_SI ev) (ie_poll ev) s2 else s2) in *.
   assert (H3 : stepU s s3).
   { eapply stepU_trans; [exact H1|]. eapply stepU_trans; [exact H2|].
     unfold s3. destruct dopoll; [apply stepU_poll | apply stepU_refl]. }
-  destruct (exn s3) eqn:Ex3; [intros C; congruence|].
-  destruct (InvU_stepU s s3 Hx H3 HI) as [Hc3 Hr3].
+  assert (G3 : sameH s s3).
+  { eapply sameH_trans; [exact G1|]. eapply sameH_trans; [exact G2|].
+    unfold s3. destruct dopoll; [apply sameH_poll | apply sameH_refl]. }
+  exists s3, dopoll. split; [exact H3|]. split; [exact G3|].
+  destruct (exn s3) eqn:Ex3.
+  { left. repeat split; reflexivity. }
+  right. split; [reflexivity|].
   destruct (terminate o (if dopoll then k s3 else k s0) (ie_stall ev) s3) as [f m].
-  intros _. cbn [cur calls hist]. split.
-  - destruct (negb (o_det o) && dopoll && (0 <? piter s3)); [|exact Hc3].
-    destruct (ie_noisy ev) as [c|]; [|exact Hc3].
-    apply qlist_eqb_v_F2 in Hok. exact (EvU_eq _ _ _ Hok Hc3).
-  - intros h Hin. destruct (dopoll || f); [|exact (Hr3 h Hin)].
-    apply in_app_or in Hin. destruct Hin as [Hin | [Heq | []]]; [exact (Hr3 h Hin)|].
-    subst h. cbn [h_inc]. exact Hc3.
+  exists f, m, (if dopoll then k s3 else k s0). split; reflexivity.
 Qed.
 
-Lemma InvU_run_loop : forall o evs s, noisy_u_ok o s evs = true -> InvU s -> InvU (run_loop o s evs).
+(* invariant: the pair (point, observed value) of every history row is a successful call and its
+   func_count is not ahead of the counter; without a pending exception the same holds for the incumbent *)
+Definition InvP (s : st) : Prop :=
+  (forall h, In h (hist s) -> EvP (h_inc h) (calls s) /\ h_fc h <= fc s) /\
+  (exn s = false -> EvP (cur s) (calls s)).
+
+Lemma InvP_stepU : forall s s', exn s = false -> stepU s s' -> InvP s ->
+  (forall h, In h (hist s') -> EvP (h_inc h) (calls s') /\ h_fc h <= fc s') /\ EvP (cur s') (calls s').
+Proof.
+  intros s s' Hx (Hh & Hincl & Hfc & Hcu) (Hr & Hc). split.
+  - intros h Hin. rewrite Hh in Hin. destruct (Hr h Hin) as [R1 R2].
+    split; [exact (EvP_incl _ _ _ Hincl R1) | lia].
+  - destruct Hcu as [E | Hin].
+    + rewrite E. exact (EvP_incl _ _ _ Hincl (Hc Hx)).
+    + exact (EvP_exact _ _ Hin).
+Qed.
+
+Lemma InvP_step : forall o s ev, noisy_u_ok_iter o s ev = true -> InvP s -> InvP (step_iter o s ev).
+Proof.
+  intros o s ev Hok HI.
+  destruct (exn s) eqn:Hx; [rewrite step_iter_exn by exact Hx; exact HI|].
+  destruct (fin s) eqn:Hfin.
+  { unfold step_iter. rewrite Hfin. cbn [orb]. exact HI. }
+  destruct (step_iter_decomp o s ev Hfin Hx)
+    as (s3 & dopoll & HU & _ & [(Ex3 & Es & _) | (Ex3 & f & m & kk & Es & En)]);
+    destruct (InvP_stepU s s3 Hx HU HI) as [Hr3 Hc3]; rewrite Es.
+  - split; [exact Hr3 | intros C; congruence].
+  - rewrite En in Hok. unfold close_iter, InvP. cbn [hist calls fc cur exn]. split.
+    + intros h Hin. destruct (dopoll || f); [|exact (Hr3 h Hin)].
+      apply in_app_or in Hin. destruct Hin as [Hin | [Heq | []]]; [exact (Hr3 h Hin)|].
+      subst h. cbn [h_inc h_fc]. split; [exact Hc3 | lia].
+    + intros _. destruct (negb (o_det o) && dopoll && (0 <? piter s3)); [|exact Hc3].
+      destruct (ie_noisy ev) as [c|]; [|exact Hc3].
+      apply orb_true_iff in Hok. destruct Hok as [Hp | Hp].
+      * exact (EvP_pair _ _ _ Hp Hc3).
+      * apply existsb_exists in Hp. destruct Hp as (h & Hin & Hp).
+        destruct (Hr3 h Hin) as [R1 _]. exact (EvP_pair _ _ _ Hp R1).
+Qed.
+
+Lemma InvP_run_loop : forall o evs s, noisy_u_ok o s evs = true -> InvP s -> InvP (run_loop o s evs).
 Proof.
   intros o evs. unfold run_loop.
   induction evs as [|e r IH]; intros s Hok HI; cbn [fold_left noisy_u_ok] in *; [exact HI|].
   apply andb_true_iff in Hok. destruct Hok as [Hok1 Hok2].
-  apply IH; [exact Hok2|]. apply InvU_step; assumption.
+  apply IH; [exact Hok2|]. apply InvP_step; assumption.
 Qed.
 
 (* initial design: every recorded row is a successful call; without an exception every call of the
@@ -659,7 +718,7 @@ Proof.
   { cbn [fst snd]. split; [exact HR|]. split; [intros p Hp; exact Hp | intros _ c []]. }
   destruct (exn s) eqn:Hxs.
   { cbn [fst snd]. split; [exact HR|]. split; [intros p Hp; exact Hp | intros C; congruence]. }
-  destruct (do_eval_calls s (ic_eval c)) as (_ & _ & D3 & D4).
+  destruct (do_eval_calls s (ic_eval c)) as (_ & _ & D3 & D4 & _).
   destruct (exn (do_eval s (ic_eval c))) eqn:Ex2.
   { cbn [fst snd]. split; [intros u y Hin; apply D3; exact (HR u y Hin)|].
     split; [intros p Hp; exact Hp | intros C; congruence]. }
@@ -680,12 +739,14 @@ Proof.
   - exact (I3 Hx c' Hin Hrec).
 Qed.
 
-Lemma InvU_init : forall k0 ks0 o l fsd0,
+
+Lemma InvP_init : forall k0 ks0 o l fsd0,
   (exists c, In c l /\ ic_record c = true /\ e_fault (ic_eval c) = false) ->
-  InvU (init_phase k0 ks0 o l fsd0).
+  InvP (init_phase k0 ks0 o l fsd0).
 Proof.
-  intros k0 ks0 o l fsd0 (c & Hin & Hrec & _). unfold InvU.
+  intros k0 ks0 o l fsd0 (c & Hin & Hrec & _). unfold InvP.
   destruct (init_phase_struct k0 ks0 o l fsd0) as [Hh _]. rewrite Hh. clear Hh.
+  split; [intros h []|].
   unfold init_phase.
   assert (HR0 : forall u y, In (u, y) (@nil (list Q * Q)) -> In (u, Some y) (calls (init_state k0 ks0 o))).
   { intros u y []. }
@@ -693,13 +754,56 @@ Proof.
   destruct (init_calls (init_state k0 ks0 o) [] l) as [s recd]. cbn [fst snd] in *.
   pose proof (argmin_spec recd None) as Harg.
   destruct (argmin_rows None recd) as [[u y]|].
-  - intros _. cbn [set_cur cur calls i_u]. split; [|intros h []].
-    destruct Harg as ([C | Hinr] & _); [discriminate|]. exact (EvU_exact _ _ _ (I1 u y Hinr)).
+  - intros _. cbn [set_cur cur calls].
+    destruct Harg as ([C | Hinr] & _); [discriminate|].
+    apply EvP_exact. cbn [i_u i_y]. exact (I1 u y Hinr).
   - intros Hx. exfalso. destruct Harg as [_ Hnil]. subst recd. exact (I3 Hx c Hin Hrec).
 Qed.
 
+Lemma InvP_run : forall k0 ks0 o l fsd0 evs,
+  noisy_u_ok o (init_phase k0 ks0 o l fsd0) evs = true ->
+  (exists c, In c l /\ ic_record c = true /\ e_fault (ic_eval c) = false) ->
+  InvP (run k0 ks0 o l fsd0 evs).
+Proof.
+  intros k0 ks0 o l fsd0 evs Hok HR. unfold run.
+  apply InvP_run_loop; [exact Hok | apply InvP_init; exact HR].
+Qed.
+
+Theorem rows_are_evaluated_pairs :
+  forall (k0 ks0 : Z) (o : opts) (l : list init_call) (fsd0 : Q) (evs : list iter_ev),
+    noisy_u_ok o (init_phase k0 ks0 o l fsd0) evs = true ->
+    (exists c, In c l /\ ic_record c = true /\ e_fault (ic_eval c) = false) ->
+    let s := run k0 ks0 o l fsd0 evs in
+    forall h, In h (hist s) ->
+      (exists u' y', In (u', Some y') (calls s) /\ Forall2 Qeq u' (i_u (h_inc h)) /\ (y' == i_y (h_inc h))%Q) /\
+      h_fc h <= fc s.
+Proof.
+  intros k0 ks0 o l fsd0 evs Hok HR s h Hin.
+  destruct (InvP_run k0 ks0 o l fsd0 evs Hok HR) as [Hr _]. exact (Hr h Hin).
+Qed.
+
+(* the returned incumbent is the chosen history row (point and observed value) *)
+Theorem noisy_result_is_a_row :
+  forall (o : opts) (nfs : Z) (fev : final_ev) (s : st),
+    let f := final_phase o nfs fev s in
+    exn s = false -> o_det o = false -> 0 < piter s -> (fe_idx fev < List.length (hist s))%nat ->
+    exists h, nth_error (hist s) (fe_idx fev) = Some h /\
+              i_u (cur (fo_st f)) = i_u (h_inc h) /\ i_y (cur (fo_st f)) = i_y (h_inc h).
+Proof.
+  intros o nfs fev s f Hx Hd Hp Hidx. unfold f.
+  destruct (final_phase_cases o nfs fev s) as [(Hc & E) | (_ & _ & _ & [(En & E) | (h & En & [(Hn & E) | (Hn & s2 & ys & sds & Efs & [(Hx2 & E) | (Hx2 & E)])])])];
+    rewrite E; cbn [fo_st].
+  - exfalso. destruct Hc as [C | [C | C]]; [congruence | congruence | lia].
+  - exfalso. apply nth_error_None in En. lia.
+  - exists h. split; [exact En|]. cbn [set_cur cur fin_inc i_u i_y]. split; reflexivity.
+  - exists h. split; [exact En|].
+    destruct (final_samples_cur (Z.to_nat nfs) (fe_obs fev) (set_cur s (fin_inc fev h)) (i_u (h_inc h)) [] []) as [Hc _].
+    rewrite Efs in Hc. cbn [fst] in Hc. rewrite Hc. cbn [set_cur cur fin_inc i_u i_y]. split; reflexivity.
+  - exists h. split; [exact En|]. cbn [set_cur cur i_u i_y]. split; reflexivity.
+Qed.
+
 (* Statement note: the second conjunct of C05_returned_x_is_evaluated_iterate is membership in the
-   call list UP TO Qeq of the coordinates, because noisy_u_ok compares points with Qeq_bool. *)
+   call list UP TO Qeq of the coordinates and of the value, because noisy_u_ok compares with Qeq_bool. *)
 Theorem returned_x_is_evaluated_iterate :
   forall (k0 ks0 : Z) (o : opts) (l : list init_call) (fsd0 : Q) (evs : list iter_ev) (nfs : Z) (fev : final_ev),
     let s := run k0 ks0 o l fsd0 evs in
@@ -708,27 +812,127 @@ Theorem returned_x_is_evaluated_iterate :
     (exists c, In c l /\ ic_record c = true /\ e_fault (ic_eval c) = false) ->
     exn s = false -> o_det o = false -> 0 < piter s -> (fe_idx fev < List.length (hist s))%nat ->
     (exists h, nth_error (hist s) (fe_idx fev) = Some h /\ i_u (cur (fo_st f)) = i_u (h_inc h) /\ i_y (cur (fo_st f)) = i_y (h_inc h)) /\
-    (exists u' y, In (u', Some y) (calls s) /\ Forall2 Qeq u' (i_u (cur (fo_st f)))).
+    (exists u' y, In (u', Some y) (calls s) /\ Forall2 Qeq u' (i_u (cur (fo_st f))) /\ (y == i_y (cur (fo_st f)))%Q).
 Proof.
   intros k0 ks0 o l fsd0 evs nfs fev s f Hok HR Hx Hd Hp Hidx.
-  assert (HI : InvU s).
-  { unfold s, run. apply InvU_run_loop; [exact Hok | apply InvU_init; exact HR]. }
-  destruct (HI Hx) as [_ Hrows].
-  assert (Hmain : exists h, nth_error (hist s) (fe_idx fev) = Some h /\
-                            i_u (cur (fo_st f)) = i_u (h_inc h) /\ i_y (cur (fo_st f)) = i_y (h_inc h)).
-  { unfold f, run_full. fold s.
-    destruct (final_phase_cases o nfs fev s) as [(Hc & E) | (_ & _ & _ & [(En & E) | (h & En & [(Hn & E) | (Hn & s2 & ys & sds & Efs & [(Hx2 & E) | (Hx2 & E)])])])];
-      rewrite E; cbn [fo_st].
-    - exfalso. destruct Hc as [C | [C | C]]; [congruence | congruence | lia].
-    - exfalso. apply nth_error_None in En. lia.
-    - exists h. split; [exact En|]. cbn [set_cur cur fin_inc i_u i_y]. split; reflexivity.
-    - exists h. split; [exact En|].
-      destruct (final_samples_cur (Z.to_nat nfs) (fe_obs fev) (set_cur s (fin_inc fev h)) (i_u (h_inc h)) [] []) as [Hc _].
-      rewrite Efs in Hc. cbn [fst] in Hc. rewrite Hc. cbn [set_cur cur fin_inc i_u i_y]. split; reflexivity.
-    - exists h. split; [exact En|]. cbn [set_cur cur i_u i_y]. split; reflexivity. }
+  destruct (InvP_run k0 ks0 o l fsd0 evs Hok HR) as [Hrows _]. fold s in Hrows.
+  pose proof (noisy_result_is_a_row o nfs fev s Hx Hd Hp Hidx) as Hmain.
+  change (final_phase o nfs fev s) with f in Hmain.
   split; [exact Hmain|].
-  destruct Hmain as (h & En & Eu & _). rewrite Eu.
-  apply nth_error_In in En. exact (Hrows h En).
+  destruct Hmain as (h & En & Eu & Ey). rewrite Eu, Ey.
+  apply nth_error_In in En. destruct (Hrows h En) as [Hev _]. exact Hev.
+Qed.
+
+(* ---- recorded func_count: never ahead of the counter, non-decreasing along the history ---- *)
+Definition MonoF (h : list hrow) : Prop :=
+  forall (i j : nat) (a b : hrow), (i <= j)%nat ->
+    nth_error h i = Some a -> nth_error h j = Some b -> h_fc a <= h_fc b.
+
+Lemma MonoF_snoc : forall h r, MonoF h -> (forall x, In x h -> h_fc x <= h_fc r) -> MonoF (h ++ [r]).
+Proof.
+  intros h r HM Hb i j a b Hij Ha Hb'.
+  destruct (lt_dec j (List.length h)) as [Hj | Hj].
+  - rewrite nth_error_app1 in Ha by lia. rewrite nth_error_app1 in Hb' by lia.
+    exact (HM i j a b Hij Ha Hb').
+  - destruct (nth_error_snoc_last h r j b) as [Eb Ej]; [lia | exact Hb' |]. subst b.
+    destruct (lt_dec i (List.length h)) as [Hi | Hi].
+    + rewrite nth_error_app1 in Ha by lia. apply Hb. eapply nth_error_In. exact Ha.
+    + destruct (nth_error_snoc_last h r i a) as [Ea _]; [lia | exact Ha |]. subst a. lia.
+Qed.
+
+Definition InvF (s : st) : Prop := MonoF (hist s) /\ forall h, In h (hist s) -> h_fc h <= fc s.
+
+Lemma InvF_step : forall o s ev, InvF s -> InvF (step_iter o s ev).
+Proof.
+  intros o s ev HI.
+  destruct (exn s) eqn:Hx; [rewrite step_iter_exn by exact Hx; exact HI|].
+  destruct (fin s) eqn:Hfin.
+  { unfold step_iter. rewrite Hfin. cbn [orb]. exact HI. }
+  destruct HI as [HM Hb].
+  destruct (step_iter_decomp o s ev Hfin Hx)
+    as (s3 & dopoll & (Hh & _ & Hfc & _) & _ & [(Ex3 & Es & _) | (Ex3 & f & m & kk & Es & _)]); rewrite Es.
+  - unfold InvF. rewrite Hh. split; [exact HM|]. intros h Hin. pose proof (Hb h Hin). lia.
+  - unfold close_iter, InvF. cbn [hist fc]. rewrite Hh.
+    assert (Hb3 : forall x, In x (hist s) -> h_fc x <= fc s3) by (intros x Hin; pose proof (Hb x Hin); lia).
+    destruct (dopoll || f); [|split; [exact HM | exact Hb3]].
+    split; [apply MonoF_snoc; [exact HM | exact Hb3]|].
+    intros h Hin. apply in_app_or in Hin. destruct Hin as [Hin | [Heq | []]]; [exact (Hb3 h Hin)|].
+    subst h. cbn [h_fc]. lia.
+Qed.
+
+Lemma InvF_run_loop : forall o evs s, InvF s -> InvF (run_loop o s evs).
+Proof.
+  intros o evs. unfold run_loop.
+  induction evs as [|e r IH]; intros s HI; cbn [fold_left]; [exact HI|].
+  apply IH. apply InvF_step. exact HI.
+Qed.
+
+Theorem func_count_nondecreasing :
+  forall (k0 ks0 : Z) (o : opts) (l : list init_call) (fsd0 : Q) (evs : list iter_ev),
+    let s := run k0 ks0 o l fsd0 evs in
+    forall (i j : nat) (a b : hrow), (i <= j)%nat ->
+      nth_error (hist s) i = Some a -> nth_error (hist s) j = Some b -> h_fc a <= h_fc b.
+Proof.
+  intros k0 ks0 o l fsd0 evs s.
+  assert (H0 : InvF (init_phase k0 ks0 o l fsd0)).
+  { destruct (init_phase_struct k0 ks0 o l fsd0) as [Hh _]. unfold InvF. rewrite Hh.
+    split; [|intros h []]. intros i j a b _ Ha _. destruct i; discriminate. }
+  destruct (InvF_run_loop o evs _ H0) as [HM _]. exact HM.
+Qed.
+
+(* ---- the closing record of a finished run ---- *)
+Definition LR (o : opts) (s : st) : Prop :=
+  fin s = true -> exn s = false ->
+  exists h, nth_error (hist s) (List.length (hist s) - 1) = Some h /\ h_fc h = fc s /\
+            (o_det o = true \/ piter s = 0 -> h_inc h = cur s).
+
+Lemma LR_step : forall o s ev, LR o s -> LR o (step_iter o s ev).
+Proof.
+  intros o s ev HI.
+  destruct (exn s) eqn:Hx; [rewrite step_iter_exn by exact Hx; exact HI|].
+  destruct (fin s) eqn:Hfin.
+  { unfold step_iter. rewrite Hfin. cbn [orb]. exact HI. }
+  destruct (step_iter_decomp o s ev Hfin Hx)
+    as (s3 & dopoll & _ & (_ & _ & Hf3) & [(Ex3 & Es & _) | (Ex3 & f & m & kk & Es & _)]); rewrite Es.
+  - intros C. congruence.
+  - unfold close_iter, LR. cbn [hist fc cur fin exn piter]. intros Hf _. subst f.
+    rewrite orb_true_r. cbn [negb andb].
+    exists (mkH (cur s3) (fc s3) kk). split.
+    + rewrite app_length. cbn [List.length].
+      rewrite nth_error_app2 by lia.
+      replace (List.length (hist s3) + 1 - 1 - List.length (hist s3))%nat with 0%nat by lia. reflexivity.
+    + cbn [h_fc h_inc]. split; [reflexivity|].
+      intros [Hd | Hp0].
+      * rewrite Hd. reflexivity.
+      * rewrite Hp0. change (0 <? 0) with false. rewrite andb_false_r. reflexivity.
+Qed.
+
+Lemma LR_run_loop : forall o evs s, LR o s -> LR o (run_loop o s evs).
+Proof.
+  intros o evs. unfold run_loop.
+  induction evs as [|e r IH]; intros s HI; cbn [fold_left]; [exact HI|].
+  apply IH. apply LR_step. exact HI.
+Qed.
+
+Theorem result_is_last_row :
+  forall (k0 ks0 : Z) (o : opts) (l : list init_call) (fsd0 : Q) (evs : list iter_ev),
+    let s := run k0 ks0 o l fsd0 evs in
+    fin s = true -> exn s = false -> (o_det o = true \/ piter s = 0) ->
+    exists h, nth_error (hist s) (List.length (hist s) - 1) = Some h /\ h_inc h = cur s /\ h_fc h = fc s.
+Proof.
+  intros k0 ks0 o l fsd0 evs s Hfin Hx Hc.
+  assert (H0 : LR o (init_phase k0 ks0 o l fsd0)).
+  { intros C. exfalso.
+    destruct (HL_init_phase k0 ks0 o l fsd0) as [_ Hl].
+    destruct (init_phase_struct k0 ks0 o l fsd0) as [Hh _].
+    rewrite Hh, C in Hl. cbn [List.length] in Hl.
+    pose proof (sameH_init_calls l (init_state k0 ks0 o) []) as Hs.
+    unfold init_phase in C.
+    destruct (init_calls (init_state k0 ks0 o) [] l) as [s' recd]. cbn [fst] in Hs.
+    destruct Hs as (_ & _ & Hf). cbn [init_state fin] in Hf.
+    destruct (argmin_rows None recd) as [[u y]|]; cbn [set_cur fin] in C; congruence. }
+  destruct (LR_run_loop o evs _ H0 Hfin Hx) as (h & Hn & Hfc & Hinc).
+  exists h. split; [exact Hn|]. split; [exact (Hinc Hc) | exact Hfc].
 Qed.
 
 (* ================================================================== *)
